@@ -1000,7 +1000,7 @@ CLAUSES += [
     Clause("minimal", minimal_cases, run_minimal, quick=400, thorough=3000,
            rule="check_dfa_minimal: key from own Moore refinement, mutations, the unminimised DFA, independent, ill-formed; criterion: same language and (when every instance "
                 "state is reachable) state count = Myhill-Nerode index: " + R_COMMON),
-    Clause("nfa2dfa", nfa2dfa_cases, run_nfa2dfa, quick=500, thorough=4000,
+    Clause("nfa2dfa", nfa2dfa_cases, run_nfa2dfa, quick=1200, thorough=8000,
            rule="check_nfa2dfa: key from own subset construction, mutations, eps-move added, extra unreachable subset, ill-formed; criterion: total deterministic automaton "
                 "without eps-moves over set labels, initial label = E(q0), exactly the NFA's language: " + R_COMMON),
     Clause("cyk", cyk_cases, run_cyk, quick=500, thorough=4000,
